@@ -66,7 +66,7 @@ EXTRA = {
  "C08": "; the optional DeleteTableMeta is in the value method set of a storage used as a value; registry check-then-act under one hold; a created table starts from a wiped directory and Clear reopens with nuke; walk callbacks examine their error first; the table definition is persisted under the lock that serialises its changes",
  "C09": "; directory pruning stops strictly below the bucket directory; Copy does not mix source and destination names; any return on an unreadable sidecar excludes not-exist first; siblings use the same named parameters; scrubbed fields are recomputed; directory entries never reach the per-object listing logic; filestore.Add creates the object's directory on every writing path; computed metadata fields are baked from final values",
  "C10": "; the locked object is not read back after its lock was released; every mutator in its matching critical section; stored records immutable; computed metadata fields are baked from final values; Copy goes through the store's own Add",
- "C11": "; recorded names carry the requested prefix; walk callback examines its error first; sibling parameter use; directory entries never reach the per-object listing logic; the prefix is never on the inclusive side of the cursor comparison; a page is bounded by maxResults on every recording path",
+ "C11": "; recorded names carry the requested prefix; walk callback examines its error first; sibling parameter use; directory entries never reach the per-object listing logic; the prefix is never on the inclusive side of the cursor comparison; a page is bounded by maxResults on every recording path; a page cut short by maxResults carries a page token (known finding on the pinned tree)",
  "C12": "; the branch selector is an emptiness test on every path; cells are never edited in place; copyRow depth; no row deletion from inside an iteration; isEmpty answers on the evidence of a cell; a given predicate is evaluated on every successful path",
  "C13": "; timestamps from the injectable clock; column lookups do not rely on qualifier order; appendOrReplaceCell uniqueness conditions and every read-modify-write insert goes through it; read and write-back of every row RPC under one hold; the written timestamp depends on the newest existing cell; the value bytes of an existing cell are never written",
  "C14": "; registry check-then-act under one hold; no nil scan bound; rows closed only at shutdown; the ListTables parent prefix includes the /tables/ separator; a missing table is answered NotFound, an existing one AlreadyExists",
